@@ -179,6 +179,7 @@ def _run(chk, tier, bins, gdir):
     worst = {}
     for g in range(1, 5):
         cs = [c for c in cases if GROUP[c["el"]] == g]
+        cs = [c for r in range(8) for c in cs[r::8]]      # interleave: the runner cuts the list into contiguous shards
         res = vlib.run_cases(bins[g - 1], cs, tmo=300, shards=8)
         for c, rr in zip(cs, res):
             if rr.get("ok") is True and rr.get("skip"):
